@@ -489,6 +489,7 @@ class C14(Check):
             yield ("hist", (("gcall", i),))
             yield ("hist", (("gload", i),))
         for k in range(8):
+            yield ("seedtable", k)
             for s in (0, 1):
                 if self.tier == "quick" and s == 1 and k not in (0, 5):
                     continue
@@ -570,6 +571,8 @@ class C14(Check):
             return self._eval_hist(st)
         if st[0] == "seed":
             return self._eval_seed(st)
+        if st[0] == "seedtable":
+            return self._eval_seedtable(st)
         if st[0] == "cands2":
             return self._eval_cands2(st)
         if st[0] == "chain":
@@ -713,6 +716,11 @@ print("RESULT", repr(last))
         for st, o in results:
             if st[0] == "chain" and st[1] is not None and st[2] in solo and o.key != solo[st[2]]:
                 out.append(("chain/result-depends-on-earlier-evaluation", f"{o.note['state']} evaluated after {o.note['after']}: {o.key[2]} vs alone {solo[st[2]][2]}", st))
+        # stage-level refinement of a tie-prone table under different hash seeds: every answer was checked to be optimal;
+        # a different optimal refinement per seed is the known tie-choice finding
+        tabs = {st[1]: o.key for st, o in results if st[0] == "seedtable"}
+        if len(set(tabs.values())) > 1:
+            out.append(("seed/tie-choice", f"tie-prone table, stage level: {len(set(tabs.values()))} different optimal refinements over hash seeds {sorted(tabs)}", ("seedtable", 0)))
         # hash seeds
         seeds = collections.defaultdict(dict)
         for st, o in results:
@@ -723,6 +731,36 @@ print("RESULT", repr(last))
             if len(vals) > 1:
                 out.append(("seed/output-depends-on-hash-seed", f"sample {s}: {d}", ("seed", 0, s)))
         return out
+
+    def _eval_seedtable(self, st):
+        """A tie-prone evidence table refined at stage level in a fresh process with hash seed k; the subprocess also
+        says whether what it reports belongs to the enumerated complete optimal set."""
+        k = st[1]
+        script = f"""
+import sys
+sys.path.insert(0, {os.path.dirname(os.path.dirname(os.path.dirname(os.path.abspath(__file__))))!r})
+from mc import repo; repo.setup()
+from mc.props import c13
+from mc import worlds
+chk = c13.C13("quick", 0)
+wk = worlds.WorldSpec(strands=('+', '-'), pseudo=True, indelmap=False, seqid=0, table='richd')
+planted = (('10', '10.001'), ('10', '10.002'), ('12#1', '12#2.002'))
+devs = (('set', ('var', (124, 'delA')), 10),)
+mj, mn, _ = chk._run_table(wk, 'hg19', planted, devs, 0.0, 1)
+opt = chk._optimal_readouts(chk._last)
+print('RESULT', repr((mj, mn, all(x[1] in opt for x in mn))))
+"""
+        env = dict(os.environ, PYTHONHASHSEED=str(k), VERIF_REPO=repo.REPO)
+        r = subprocess.run([sys.executable, "-W", "ignore", "-c", script], capture_output=True, text=True, env=env)
+        line = [l for l in r.stdout.splitlines() if l.startswith("RESULT")]
+        v = []
+        if r.returncode != 0 or not line:
+            v.append(("seed/run-failed", r.stderr[-400:]))
+            return Outcome(v, key=("seedtable", None), nontrivial=True)
+        mj, mn, optimal = eval(line[0][7:])
+        if not optimal:
+            v.append(("seed/reported-refinement-not-optimal", f"hash seed {k}: {mn}"))
+        return Outcome(v, key=("seedtable", repr((mj, mn))), nontrivial=True, note={"hash_seed": k, "minor": repr(mn)[:300], "optimal": optimal})
 
     def _eval_seed(self, st):
         _, k, s = st
